@@ -219,6 +219,21 @@ func requiredFamily(valid M) []struct {
 	if typ == "Add" || typ == "Remove" {
 		mk("missing-target:absent", func(m M) { delete(m, "target") })
 		mk("missing-target:empty-list", func(m M) { m["target"] = A{} })
+		// the member that is present may be of any shape: the body still
+		// lacks a required member
+		mk("missing-target:absent,object-without-id", func(m M) { delete(m, "target"); m["object"] = M{"type": "Note", "content": "anonymous"} })
+		mk("missing-target:absent,objects-one-without-id", func(m M) {
+			delete(m, "target")
+			m["object"] = A{R1 + "/notes/77", M{"type": "Note"}}
+		})
+		mk("missing-target:empty-list,object-without-id", func(m M) { m["target"] = A{}; m["object"] = M{"type": "Note"} })
+		mk("missing-object:absent,target-without-id", func(m M) { delete(m, "object"); m["target"] = M{"type": "Collection"} })
+		mk("missing-object:empty-list,target-without-id", func(m M) { m["object"] = A{}; m["target"] = A{M{"type": "OrderedCollection"}} })
+	}
+	if needsObject[typ] && typ != "Add" && typ != "Remove" {
+		// other members in unusual shapes next to the missing object
+		mk("missing-object:absent,target-without-id", func(m M) { delete(m, "object"); m["target"] = M{"type": "Collection"} })
+		mk("missing-object:absent,to-without-id", func(m M) { delete(m, "object"); m["to"] = A{M{"type": "Person"}} })
 	}
 	return out
 }
